@@ -211,7 +211,7 @@ META["C20"] = dict(
     rule="distinct cases: restriction set (base, comparisons, join); regex; (registered type, value class, value); (secret shape, "
     "token). Evaluations count individual cast / round-trip judgements. Non-trivial: every case reaches a verdict.",
     gates={
-        "mon.restriction_sets": g(60, 1500),
+        "mon.restriction_sets": g(60, 1500), "mon.restriction_sets_created_in_both_orders": g(200, 1500),
         "mon.restricted_number.cast": g(1000, 30000),
         "mon.restricted_number.parser.argv": g(300, 8000),
         "mon.restricted_number.parser.config": g(300, 8000),
